@@ -41,6 +41,17 @@ Section Trace.
         end
     end.
 
+  (** the nodes the walk can reach from a root: the root, and the definition of every fragment
+      spread somewhere inside a reached node *)
+  Inductive spread_in : anode C -> bytes -> Prop :=
+  | SI_here : forall name kids, spread_in (ANode (ASpread name) kids) name
+  | SI_kid : forall k kids n name, In n kids -> spread_in n name -> spread_in (ANode k kids) name.
+
+  Inductive reached (frs : list (bytes * anode C)) (root : anode C) : anode C -> Prop :=
+  | R_root : reached frs root root
+  | R_spread : forall n name def, reached frs root n -> spread_in n name -> alookup_last frs name = Some def ->
+                                  reached frs root def.
+
   Section Visit.
     Variable skip_zero : bool.
     Variable default_cost : fcost C.
